@@ -2583,3 +2583,116 @@ def c02_hash_search(meta, seed, budget):
     for ct in ("cached", "none"):
         for memo in (False, True):
             yield {"ct": ct, "memo": memo, "pid": 4242, "born": 77.5}
+
+
+# ---------------------------------------------------------------------------
+# C08: witness search for virtual_memory, runner + search for calculate_avail_vmem
+# ---------------------------------------------------------------------------
+
+def _vm_model(total, free, avail=None, buffers=1024, cached=2048, extra=None, est=None):
+    m = {"has_MemTotal": True, "val_MemTotal": total, "has_MemFree": True, "val_MemFree": free,
+         "has_Buffers": True, "val_Buffers": buffers, "has_Cached": True, "val_Cached": cached,
+         "has_Shmem": True, "val_Shmem": 0, "has_Active": True, "val_Active": 0, "has_Inactive": True, "val_Inactive": 0}
+    if avail is not None:
+        m.update(has_MemAvailable=True, val_MemAvailable=avail)
+    if est is not None:
+        m["est"] = est
+    m.update(extra or {})
+    return m
+
+
+@search("c08:virtual_memory")
+def c08_vm_search(meta, seed, budget):
+    import random
+    K = 1024
+    T = 1000 * K
+    # MemAvailable present / zero / absent x estimate inside, above, below [0, total]
+    for avail in (None, 0, 300 * K, 2000 * K):
+        for est in (400 * K, 0, -5 * K, 3000 * K):
+            yield _vm_model(T, 100 * K, avail, est=est)
+    # container-distorted figures: free + cached + buffers > total in every split
+    for free, cached, buffers in ((600 * K, 300 * K, 200 * K), (900 * K, 50 * K, 100 * K), (100 * K, 600 * K, 500 * K),
+                                  (0, 1000 * K, 1 * K), (1200 * K, 0, 0)):
+        yield _vm_model(T, free, 500 * K, buffers=buffers, cached=cached, est=100 * K)
+        yield _vm_model(T, free, None, buffers=buffers, cached=cached, est=5000 * K)
+    yield _vm_model(0, 0, 0, est=0)
+    rng = random.Random(seed)
+    n = 0
+    while n < budget:
+        n += 1
+        t = rng.choice([0, 1, 1000, 10 ** 6]) * K
+        m = _vm_model(t, rng.choice([0, t // 2, t, 2 * t + K]), rng.choice([None, 0, t // 3, 3 * t + K]),
+                      buffers=rng.choice([0, K, t]), cached=rng.choice([0, K, t]), est=rng.choice([-K, 0, t // 2, 4 * t + K]))
+        for key in ("Buffers", "Cached", "Shmem", "Active", "Inactive"):
+            if rng.random() < 0.15:
+                m[f"has_{key}"] = False
+        if rng.random() < 0.3:
+            m.update(has_SReclaimable=True, val_SReclaimable=rng.choice([0, K, t]))
+        yield m
+
+
+def _avail_reference(mems, lows, zone_ok):
+    """kernel commit 34e431b0ae39 as documented in psutil: all inputs in bytes, watermarks in pages"""
+    free = mems[b"MemFree:"]
+    fallback = free + mems.get(b"Cached:", 0)
+    try:
+        af, inf, sr = mems[b"Active(file):"], mems[b"Inactive(file):"], mems[b"SReclaimable:"]
+    except KeyError:
+        return fallback
+    if not zone_ok:
+        return fallback
+    import resource
+    w = sum(lows) * resource.getpagesize()
+    avail = free - w
+    pagecache = af + inf
+    pagecache -= min(pagecache / 2, w)
+    avail += pagecache
+    avail += sr - min(sr / 2.0, w)
+    return int(avail)
+
+
+@runner("c08:avail")
+def c08_avail(model, meta):
+    from psutil import _pslinux
+    K = 1024
+    cfgs = cfg_of(meta)
+    zone_ok = str(model.get("zone_ok", cfgs.get("zoneinfo", True))) == "True"
+    mems = {b"MemFree:": int(model.get("free", 100 * K))}
+    for key, nm in ((b"Active(file):", "af"), (b"Inactive(file):", "inf"), (b"SReclaimable:", "sr"), (b"Cached:", "cached")):
+        if model.get(nm) is not None:
+            mems[key] = int(model[nm])
+    lows = [int(x) for x in model.get("lows", [10, 20])]
+    zi = b"".join(b"Node 0, zone   DMA%d\n  pages free     39\n        min      1\n        low      %d\n        high     3\n" % (i, v)
+                  for i, v in enumerate(lows))
+    files = {"zoneinfo": zi} if zone_ok else {}
+    with fake_procfs(files):
+        try:
+            res, exc = _pslinux.calculate_avail_vmem(dict(mems)), None
+        except Exception as e:  # noqa: BLE001
+            res, exc = None, e
+    want = _avail_reference(mems, lows, zone_ok)
+    bad = exc is not None or res != want
+    return {"env": {}, "result": res if exc is None else repr(exc), "expected": want, "exc": None, "verdict": bad,
+            "tag": f"calculate_avail_vmem({ {k.decode(): v for k, v in mems.items()} }, low watermarks {lows}) -> {res}, documented estimate {want}"[:220]
+            if bad else None}
+
+
+@search("c08:avail")
+def c08_avail_search(meta, seed, budget):
+    import random
+    K = 1024
+    page = 4096
+    for lows in ([10, 20], [0], [5000], []):
+        w = sum(lows) * page
+        for sr in (0, w // 2, w, 2 * w - K, 2 * w + K, 10 * w + K):
+            for pc in (0, w, 2 * w - K, 4 * w + K):
+                yield {"free": 500 * K, "af": pc // 2, "inf": pc - pc // 2, "sr": sr, "cached": 7 * K, "lows": lows}
+    yield {"free": 500 * K, "cached": 7 * K}
+    yield {"free": 500 * K, "af": K, "inf": K, "sr": K, "zone_ok": False, "cached": 3 * K}
+    rng = random.Random(seed)
+    n = 0
+    while n < budget:
+        n += 1
+        yield {"free": rng.randrange(0, 10 ** 9), "af": rng.randrange(0, 10 ** 8), "inf": rng.randrange(0, 10 ** 8),
+               "sr": rng.randrange(0, 10 ** 7), "cached": rng.randrange(0, 10 ** 8),
+               "lows": [rng.randrange(0, 3000) for _ in range(rng.randrange(0, 4))]}
